@@ -127,9 +127,11 @@ fn judge_steps(steps: &[StepRec], proposals: u64, inner: u64, max_step: f64, ran
             continue;
         }
         if let Some(i) = st.changed {
-            let limit = max_step * ranges[i] / 2. * (1. + 1e-12);
-            judged += 1;
             let x = st.proposal[i];
+            // the new value is the rounded sum of the old value and the move: the distance between the two stored
+            // doubles can exceed the move itself by an ulp of the value
+            let limit = max_step * ranges[i] / 2. * (1. + 1e-12) + 2. * f64::EPSILON * x.abs();
+            judged += 1;
             let pos = seen[i].partition_point(|y| *y < x);
             let mut nearest = st.delta_min;
             if pos < seen[i].len() {
@@ -430,7 +432,8 @@ fn freeze_oracle(c: &FreezeCase, rec: &Rec, _: &Ctx) -> Result<(), String> {
     if res.is_err() {
         return Err(format!("optimiser panicked after {} evaluations", calls));
     }
-    let limit = max_step * range / 2. * (1. + 1e-12);
+    // values stay below 1e9 here: two ulps of that as the rounding allowance of a stored sum
+    let limit = max_step * range / 2. * (1. + 1e-12) + 2. * f64::EPSILON * 1e9;
     let worst = f64::from_bits(stats.max_move_bits.load(Relaxed));
     if worst > limit {
         let k = stats.max_move_call.load(Relaxed);
